@@ -148,7 +148,20 @@ def run_chain(rng, counters, violations):
     log = ["new %s rows=%d cols=%s" % (0, len(live[0]), live[0]._col_names)]
     derived_ok = 0
 
+    side = []       # tables with another index column, lending their column lists as selectors
+
     def check_all(after):
+        for t in side[-3:]:
+            counters["invariant_checks"] = counters.get("invariant_checks", 0) + 1
+            why = invariant(t, "the table (indexed by 's') whose column list was used as a selector")
+            if why is None:
+                try:
+                    len(t), t.rows[:]
+                except Exception as exc:
+                    why = "the table (indexed by 's') whose column list was used as a selector can no longer be used: %s: %s" % (type(exc).__name__, exc)
+            if why:
+                violations.append({"what": "C14 after %s: %s" % (after, why), "log": list(log)})
+                return False
         for j, t in enumerate(live):
             counters["invariant_checks"] = counters.get("invariant_checks", 0) + 1
             why = invariant(t, "table #%d" % j)
@@ -164,7 +177,7 @@ def run_chain(rng, counters, violations):
         src = live[src_i]
         kind = rng.choice(["rows", "rows2", "cols", "cols_str", "select", "add", "mul", "concat", "copy", "t", "head",
                            "tail", "reverse", "setcol", "newcol", "setcell", "new", "colexpr", "delcol", "pop", "neg",
-                           "at", "iter", "badset", "ragged", "newentry"])
+                           "at", "iter", "badset", "ragged", "newentry", "cols_borrowed"])
         real_cols = [c for c in src._col_names]
         desc = kind
         snap = snapshot(src)
@@ -183,7 +196,33 @@ def run_chain(rng, counters, violations):
             elif kind == "cols":
                 cs = rng.sample(real_cols, rng.randrange(1, len(real_cols) + 1))
                 desc = "#%d.cols[%s]" % (src_i, cs)
+                cs0 = list(cs)
                 out = src.cols[cs]
+                if cs != cs0:
+                    violations.append({"what": "C14 %s modified the list it was given: now %s" % (desc, cs), "log": list(log)})
+                    return derived_ok
+            elif kind == "cols_borrowed":
+                # "out of this table, the columns that other table has": the selector is the OTHER table's own column list
+                # (cols.names); that table is indexed by another column and does not have this table's index column.
+                # Afterwards both tables must still satisfy every clause and the selector must be what it was.
+                pool = [c for c in real_cols if c != "name" and c != "s" and getattr(src._data[c], "ndim", 0) == 1]
+                if "s" in real_cols and getattr(src._data["s"], "ndim", 0) == 1 and pool:
+                    rc = rng.sample(pool, rng.randrange(1, len(pool) + 1))
+                    rc.insert(rng.randrange(len(rc) + 1), "s")
+                    other = Table({c: src._data[c].copy() for c in rc}, col_names=list(rc), index="s")
+                    side.append(other)
+                    sel = other.cols.names
+                    before = list(sel)
+                    desc = "#%d.cols[<table indexed by 's'>.cols.names = %s]" % (src_i, before)
+                    out = src.cols[sel]
+                    counters["column_selections_by_another_tables_column_list"] = counters.get("column_selections_by_another_tables_column_list", 0) + 1
+                    if list(sel) != before:
+                        violations.append({"what": "C14 %s modified the selector it was given (the other table's column list): now %s" % (desc, list(sel)),
+                                           "log": list(log)})
+                        return derived_ok
+                    if sorted(out._col_names) != sorted(set(before) | {"name"}):
+                        violations.append({"what": "C14 %s has columns %s" % (desc, out._col_names), "log": list(log)})
+                        return derived_ok
             elif kind == "cols_str":
                 cs = rng.sample([c for c in real_cols if c != "name"] or real_cols, 1)
                 desc = "#%d.cols[%r]" % (src_i, " ".join(cs))
@@ -192,7 +231,11 @@ def run_chain(rng, counters, violations):
                 s = rng.choice([None, random_selector(rng, src)])
                 cs = rng.choice([None, None, rng.sample(real_cols, rng.randrange(1, len(real_cols) + 1))])
                 desc = "#%d._select(%s, %s)" % (src_i, sel_text(s), cs)
+                cs0 = None if cs is None else list(cs)
                 out = src._select(s, cs)
+                if cs != cs0:
+                    violations.append({"what": "C14 %s modified the column list it was given: now %s" % (desc, cs), "log": list(log)})
+                    return derived_ok
             elif kind == "add":
                 others = [t for t in live if set(t._col_names) == set(src._col_names)]
                 other = rng.choice(others)
@@ -387,7 +430,7 @@ def run_chain(rng, counters, violations):
             live.append(out)
             if is_derivation:
                 derived_ok += 1
-                if kind in ("rows", "rows2", "cols", "cols_str", "select", "head", "tail", "reverse", "neg"):
+                if kind in ("rows", "rows2", "cols", "cols_borrowed", "cols_str", "select", "head", "tail", "reverse", "neg"):
                     # scalar entries are carried over to row and column selections
                     sa, sb = scalars_of(src), scalars_of(out)
                     sa = {k: v for k, v in sa.items() if not hasattr(v, "dtype")}
